@@ -90,6 +90,12 @@ LFHT_TRUSTED = ['CBMC 6.11 (legacy and dfcc loop-contract instrumentation, SAT b
                 'pool encoding: canonical layout + forall-elimination of the chain invariant at the node being read (lfht_harness_post.h); layout-obliviousness of the verified functions',
                 'tag helpers redirected to object-preserving pointer-arithmetic forms by a must-fire rewrite; integer-level equivalence proved (C08.O1.tags)',
                 'fls (bsr inline asm) instruction contract', 'bucket_at used through its contract in the chain proofs (proved per allocator in C08.O3)']
+SM = 'C08/small.c'
+for e, fns, d in (('h_small_is_empty', ('cds_lfht_is_empty',), 'cds_lfht_is_empty'), ('h_small_count', ('cds_lfht_count_nodes',), 'cds_lfht_count_nodes'),
+                  ('h_small_delete_bucket', ('cds_lfht_delete_bucket',), 'cds_lfht_delete_bucket'), ('h_small_first_next', ('cds_lfht_first', 'cds_lfht_next'), 'cds_lfht_first / cds_lfht_next')):
+    OBLIGATIONS.append(Ob(name='C08.O7.small.' + e[8:], harness=SM, entry=e, mode='legacy', replace=('cds_lfht_free_bucket_table', 'cds_lfht_get_count_order_ulong'), defines=D, unwind=7, min_covers=2,
+        checks=('--bounds-check', '--signed-overflow-check', '--div-by-zero-check'), tier='B', bound='all 27 chains of <= 3 nodes (bucket / live / removed each) behind bucket 0; loops fully unwound',
+        functions=fns, timeout=300, desc=d + ' on every small concrete chain, WITHOUT any rewrite rule or read hook (robust against restructured loops): result equals the reference multimap'))
 API = 'C08/api.c'
 CKAPI = ('--bounds-check', '--signed-overflow-check', '--div-by-zero-check')
 for e, fn, lc in (('h_api_add', 'cds_lfht_add', False), ('h_api_add_unique', 'cds_lfht_add_unique', False), ('h_api_add_replace', 'cds_lfht_add_replace', True), ('h_api_del', 'cds_lfht_del', False)):
